@@ -4,7 +4,9 @@ For every small move table (<= 3 moves; interval, weight, minimum count, cycles 
 alphabets) and every step number 0..6, every generator answer inside the real scheduling code
 (reached through ``MonteCarlo.step()``) is enumerated, giving the exact probability of every
 yielded name sequence; it is compared with a reference distribution computed by a boring model.
-The over-commit refusal of ``add_move`` is enumerated over the same alphabet.
+The over-commit refusal of ``add_move`` is enumerated over the same alphabet (also with the run
+advanced before the last addition).  The shipped drivers are covered through ``irun`` with their
+default moves re-configured after construction and after a rebuild from the dictionary.
 """
 
 from __future__ import annotations
@@ -391,6 +393,115 @@ def task_replay(arg):
     return {"counters": counters, "violations": viol}
 
 
+# ---------------------------------------------------------------- shipped drivers with their default moves
+def _driver(kind):
+    import numpy as np
+
+    from qv import calcs
+    from quansino.mc.canonical import Canonical
+    from quansino.mc.gcmc import GrandCanonical
+    from quansino.mc.isobaric import Isobaric
+    from quansino.mc.isotension import Isotension
+    from quansino.moves.cell import CellMove
+    from quansino.moves.displacement import DisplacementMove
+    from quansino.moves.exchange import ExchangeMove
+
+    atoms = Atoms("Ar3", positions=[[1, 1.2, 0.9], [3.1, 2.2, 4.0], [4.4, 4.9, 2.1]], cell=[6.0] * 3, pbc=True)
+    atoms.calc = calcs.Zero()
+    lab = np.arange(3)
+    with warnings.catch_warnings():
+        warnings.simplefilter("ignore")
+        if kind == "Canonical":
+            mc = Canonical(atoms, temperature=300.0, max_cycles=2, seed=1, default_displacement_move=DisplacementMove(lab))
+            mc.add_move(DisplacementMove(lab.copy()), name="second")
+        elif kind == "Isobaric":
+            mc = Isobaric(atoms, temperature=300.0, pressure=0.001, max_cycles=2, seed=1, default_displacement_move=DisplacementMove(lab), default_cell_move=CellMove())
+        elif kind == "Isotension":
+            mc = Isotension(atoms, temperature=300.0, pressure=0.001, max_cycles=2, seed=1, default_displacement_move=DisplacementMove(lab), default_cell_move=CellMove())
+        else:
+            mc = GrandCanonical(atoms, exchange_atoms=Atoms("Ar"), temperature=300.0, chemical_potential=-0.1, number_of_exchange_particles=3, max_cycles=2, seed=1, default_displacement_move=DisplacementMove(lab), default_exchange_move=ExchangeMove(lab.copy()))
+    return mc
+
+
+def task_drivers(arg):
+    """The user changes interval / weight / minimum count of the DEFAULT moves of a shipped driver
+    (or rebuilds the simulation from its dictionary) and runs: the schedule of every step, reached
+    through ``irun`` (so that whatever a run does at its start is included), follows the table."""
+    kind, rebuilt = arg["driver"], arg["rebuilt"]
+    counters = {"executions": 0, "transitions": 0, "instances": 0, "nontrivial": 0, "skipped_outside_precondition": 0}
+    viol, seen = [], {}
+    alpha = [(1, 1.0, 0), (1, 0.0, 0), (1, 3.0, 1), (2, 1.0, 0), (1, 0.0, 1), (2, 0.5, 1)]
+    for sa, sb in itertools.product(alpha, repeat=2):
+        mc = _driver(kind)
+        names = list(mc.moves)
+        if len(names) != 2:
+            mc.close()
+            raise RuntimeError(f"harness expects two default moves, got {names}")
+        for nm, (iv, w, m) in zip(names, (sa, sb)):
+            st = mc.moves[nm]
+            st.interval, st.probability, st.minimum_count = iv, w, m
+        if rebuilt:
+            old = mc
+            with warnings.catch_warnings():
+                warnings.simplefilter("ignore")
+                mc = type(old).from_dict(old.to_dict())
+            mc.atoms.calc = type(old.atoms.calc)()
+            old.close()
+            if list(mc.moves) != names:
+                sig = f"C09/driver/{kind}/rebuilt/table-names-or-order-differ"
+                if sig not in seen:
+                    seen[sig] = 1
+                    viol.append({"signature": sig, "what": f"rebuilt table {list(mc.moves)} vs {names}", "replay": {"check": PID, "func": "task_drivers", "arg": arg}})
+                mc.close()
+                continue
+        for st in mc.moves.values():  # scheduling only: the moves themselves do nothing
+            st.move, st.criteria = PMove(), PCrit()
+        table = [sa, sb]
+        try:
+            for step in (0, 1, 2):
+                if not valid(table, 2, step):
+                    counters["skipped_outside_precondition"] += 1
+                    continue
+
+                def run(ch):
+                    mc.step_count = step
+                    install(mc, ChoiceRNG(ch))
+                    out = []
+                    for s in mc.irun(1):
+                        out.extend(str(n) for n in s)
+                    return tuple(sorted(out))
+
+                got, st_ = {}, Stats()
+                err = None
+                try:
+                    for ch, key in explore(run, stats=st_):
+                        got[key] = got.get(key, 0.0) + ch.probability
+                except Exception as e:  # noqa: BLE001
+                    from qv.core import HarnessError
+
+                    if isinstance(e, HarnessError):
+                        raise
+                    err = f"scheduling raised {type(e).__name__}: {e}"
+                counters["executions"] += st_.executions
+                counters["transitions"] += st_.points
+                counters["instances"] += 1
+                ref = {}
+                for k, v in reference(table, 2, step).items():
+                    kk = tuple(sorted(names[NAMES.index(x)] for x in k))
+                    ref[kk] = ref.get(kk, 0.0) + v
+                if len(ref) > 1:
+                    counters["nontrivial"] += 1
+                worst = max((abs(ref.get(k, 0.0) - got.get(k, 0.0)) for k in set(ref) | set(got)), default=0.0)
+                if err or worst > TOL:
+                    sig = f"C09/driver/{kind}/{'rebuilt-from-dictionary' if rebuilt else 'settings-changed-after-construction'}/{'exception' if err else 'distribution-differs'}"
+                    seen[sig] = seen.get(sig, 0) + 1
+                    if seen[sig] <= 2:
+                        viol.append({"signature": sig, "what": f"default moves {names} set to (interval, weight, minimum count) {table}, step {step}: {err or 'attempt multisets %s, reference %s' % (js({' '.join(k): round(v, 6) for k, v in got.items()}), js({' '.join(k): round(v, 6) for k, v in ref.items()}))}", "replay": {"check": PID, "func": "task_drivers", "arg": arg}})
+        finally:
+            mc.close()
+    return {"counters": counters, "violations": viol, "samples": []}
+
+
 def refusal(viol):
     """add_move must refuse exactly the additions that over-commit the cycles."""
     from quansino.mc.core import MonteCarlo
@@ -454,6 +565,8 @@ def run(tier, seed):
         acc.add(r)
     two_s = [(t, c) for t in tables(2, SMALL if tier == "quick" else MID) for c in (2, 3)]
     ch3 = max(1, len(two_s) // 32)
+    for r in pmap(__name__, "task_drivers", [{"driver": k, "rebuilt": rb} for k in ("Canonical", "Isobaric", "Isotension", "GrandCanonical") for rb in (False, True)]):
+        acc.add(r)
     for r in pmap(__name__, "task_midstep", [{"items": two_s[i : i + ch3]} for i in range(0, len(two_s), ch3)]):
         acc.add(r)
     viol = list(acc.violations)
@@ -481,6 +594,9 @@ def run(tier, seed):
 
 
 def replay(data):
+    if data.get("func") == "task_drivers":
+        res = task_drivers(data["arg"])
+        return {"signatures": sorted({v["signature"] for v in res["violations"]})}
     if data.get("func") == "task_midstep":
         res = task_midstep(data["arg"])
         return {"signatures": sorted({v["signature"] for v in res["violations"]}), "counters": res["counters"]}
